@@ -147,8 +147,13 @@ func checkC14(c *Ctx, r *Report, tier string) {
 	} else {
 		determinismRule(c, r, "C14.R2", croots, "catalogue")
 	}
+	catalogueSnapshotShipsLiveMeta(c, r, "C14.R3")
 	// R3
 	effectRule(c, r, "C14.R3", func(n string) bool { return n == "DatasetManager.datasets" || n == "Partition.NodeIds" })
+	r.Rule("C14.R5", "what a restarted node reads back is what was written: the catalogue snapshot serialises the current state on every call, the partition list keeps its order (never built from map iteration), and log compaction keeps the snapshot's anchor entry so the first entry after the snapshot is replayed", 3)
+	snapshotIsFresh(c, r, "C14.R5", "DatasetManager")
+	partitionOrderStable(c, r, "C14.R5")
+	walCompactionKeepsAnchor(c, r, "C14.R5")
 	// R4
 	fDatasets := c.Field("storage", "DatasetManager", "datasets")
 	fParts := c.Field("storage", "Dataset", "partitions")
@@ -446,6 +451,22 @@ func checkC20(c *Ctx, r *Report, tier string) {
 				})
 			}
 			r.Check(okAns, "C20.R2", fnName(f), "propose-then-answer", c.Pos(prop.Pos()), "the proposal precedes the answer; the answer is the member list plus the joiner itself")
+		}
+	}
+	joinHandshakeFailsLoudly(c, r, "C20.R2")
+	// handler always applies (C05.R4's obligation, needed here because a skipped ApplyConfChange blocks every later change)
+	if rl := (func() *readyLoop {
+		for _, fn := range ro.readyLoops {
+			return analyseReadyLoop(c, fn, ro)
+		}
+		return nil
+	})(); rl != nil && rl.rd != nil {
+		sub := NewReport("C20")
+		c05R4(c, sub, rl, ro)
+		for _, o := range sub.Obls {
+			o.Rule = "C20.R2"
+			o.Key = strings.Replace(o.Key, "C05.R4", "C20.R2", 1)
+			r.Obls = append(r.Obls, o)
 		}
 	}
 	// R3
